@@ -34,7 +34,8 @@ RULE = ('PEL = PH UH <section> MT; section kinds UD, ED, 9 hexdump-only types, 4
 ASSUMPTIONS = ['a parser returning JSON null or an empty string "returns nothing"']
 
 BEHS = ['obj', 'list', 'str', 'none', 'null', 'empty', 'raise', 'importerror', 'keyerror', 'import-raises',
-        'import-importerror', 'import-missing-dependency', 'absent', 'badjson', 'num', 'nan', 'overflow', 'deep', 'hugeint']
+        'import-importerror', 'import-missing-dependency', 'absent', 'badjson', 'num', 'nan', 'overflow', 'deep', 'hugeint',
+        'blank', 'newline', 'nullnl', 'nullsp']
 BEH_CREATORS = ['O', 'B', 'x']
 CREATORS = ['B', 'C', 'H', 'K', 'L', 'M', 'O', 'P', 'S', 'T', 'x', '~']
 COMPS = [0x2000, 0x2C00, 0xE500, 0xABCD, 0x0000, 0xFFFF, 0x00AB]
@@ -161,7 +162,7 @@ def classify(case, what):
     sec = case['sec']
     if what == 'not-decoded':
         return 'C04:not-decoded'
-    if beh in ('null', 'empty'):
+    if beh in ('null', 'empty', 'blank', 'newline', 'nullnl', 'nullsp'):
         return 'F12:parser-returning-null-or-empty-drops-payload'
     if sec.get('comp') == 0xE500 and case.get('creator', 'O') == 'O' and sec.get('sub') not in (1, 2, 3, 4, 5) \
             and sec['t'] == 'UD' and case.get('plugins', True):
@@ -399,6 +400,51 @@ def run_chunk(chunk):
                         res.case(nontrivial_key=json.dumps(case, sort_keys=True), outcome='cli:' + ('lost' if why else 'ok'))
                         if why:
                             res.violation('C04:cli-section-lost', 'cli-section-lost: %s' % why, case)
+            # "parser modules disabled" through the command line: -P / --skip-parser-plugins with every display route shows
+            # what the library shows with plug-ins off (whose hex dumps the sweeps above read back), in either argument order
+            pd = os.path.join(d, 'pdir')
+            os.mkdir(pd)
+            os.mkdir(os.path.join(d, 'pout'))
+            psecs = [_sec('UD', bytes(range(1, 9)), comp=0xE500, sub=5), _sec('UD', b'{"Callout List": [{"Priority": "H"}]}', comp=0xE500, sub=3),
+                     _sec('ED', bytes.fromhex('000100020100000000020003EA088410'), comp=0x2C00, sub=73, ed_creator='M'),
+                     _sec('UD', b'{"k": "v"}', comp=0x2000, sub=1)]
+            spec = pelgen.pel_from_spec({'creator': 'O', 'eid': 0x50000D01, 'plid': 0x50000D01, 'obmc': 77,
+                                         'sections': [{'t': 'PS', 'ascii': 'BD8DE500'.ljust(32)}] + psecs + [SENTINEL]})
+            b = pelgen.encode_pel(spec)
+            path = os.path.join(pd, 'plug_50000D01')
+            with open(path, 'wb') as f:
+                f.write(b)
+            want = {True: decode.parse(b, plugins=True), False: decode.parse(b, plugins=False)}
+            routes = [(['-f', path], 'doc'), (['-p', pd, '-a'], 'list'), (['-p', pd, '-i', '50000D01'], 'doc'),
+                      (['-p', pd, '--bmc-id', '77'], 'doc'), (['-p', pd, '-j', '-o', os.path.join(d, 'pout')], 'file')]
+            for argv, shape in routes:
+                for opt in ([], ['-P'], ['--skip-parser-plugins']):
+                    for front in ((False, True) if opt else (False,)):
+                        full = (opt + argv) if front else (argv + opt)
+                        case = {'cli': True, 'argv': [a.replace(d, '<d>') for a in full]}
+                        core.arm(30)
+                        m = clidrv.run_main(full, isolate=True)
+                        core.disarm()
+                        w = want[not opt]
+                        why = None
+                        try:
+                            if w['kind'] != 'doc':
+                                why = 'library: %s %s' % (w['kind'], w.get('msg'))
+                            elif shape == 'file':
+                                with open(os.path.join(d, 'pout', 'plug_50000D01.50000D01.json')) as fh:
+                                    got = strictjson.loads(fh.read())
+                                os.unlink(os.path.join(d, 'pout', 'plug_50000D01.50000D01.json'))
+                                if got != w['doc']:
+                                    why = 'the file written differs from the document decoded with parser modules %s' % ('on' if not opt else 'off')
+                            else:
+                                got = strictjson.loads(m.stdout)
+                                if (got if shape == 'doc' else (got[0] if isinstance(got, list) and len(got) == 1 else None)) != w['doc']:
+                                    why = 'the document shown differs from the one decoded with parser modules %s' % ('on' if not opt else 'off')
+                        except Exception as e:
+                            why = 'output unreadable: %s; stderr %r' % (e, m.stderr[-160:])
+                        res.case(nontrivial_key=json.dumps(case, sort_keys=True), outcome='cli-P:' + ('differs' if why else 'ok'))
+                        if why:
+                            res.violation('C04:cli-plugins-option', '%s: %s' % (' '.join(case['argv']), why), case)
     elif k == 'plugin_json':
         # the shipped hardware-diagnostics plug-in hands JSON from the payload (callout FFDC, sub-type 3) back to the tool
         texts = [b'{"Callout List": [{"Priority": 1e999}]}', b'{"Callout List": [NaN, Infinity, -Infinity]}', b'NaN', b'[1e999]',
